@@ -789,6 +789,7 @@ impl Analyzer
 					.containers
 					.iter()
 					.filter(|x| !x.is_structure)
+					.filter(|x| x.contained_ids.contains(&container_id))
 					.find(|x| cycle.contains(&x.identifier.resolution_id));
 				if let Some(constant) = constant_in_cycle
 				{
